@@ -617,9 +617,12 @@ def run_history(fam, kind, rng, rec, h, pal):
                  c=brief(oc[:2]), py=brief(opy[:2]),
                  hostile=brief(hostile[:2]) if hostile else None)
             if not tag or oc[0] != opy[0]:
-                # states may have diverged; stop here
-                if not eq(harness.contents(c, is_mapping),
-                          harness.contents(p, is_mapping)):
+                # states may have diverged; stop here.  (Compared to the
+                # type: after one side accepted a write the other refused,
+                # `3: True` next to `3: 1` is a diverged state - equal under
+                # ==, different in every pickle from here on.)
+                if harness.safe_repr(harness.contents(c, is_mapping)) != \
+                        harness.safe_repr(harness.contents(p, is_mapping)):
                     return
         # ---- absolute clause for data outside the domain ----------------
         if hostile and not arg_ok(fam, hostile[0], hostile[2]) and \
